@@ -10,7 +10,7 @@
 From Coq Require Import NArith List.
 From Blue Require Import Gen.Const_Log Log.ModelWire Log.Model Log.Inst
   Log.ModelConcWL Log.ProofsWire Log.ProofsWriter Log.ProofsReader Log.ProofsTop Log.ProofsTotal
-  Log.ProofsWcqGhost Log.ProofsConcWL.
+  Log.ProofsAgain Log.ProofsWcqGhost Log.ProofsConcWL.
 From Blue Require Import Sync42.ModelLru Sync42.ModelWaitList Sync42.ModelWcq Sync42.PropsPrelude.
 Import ListNotations.
 Open Scope N_scope.
@@ -39,6 +39,21 @@ Theorem C12_torn_tail : forall bits crc, HEADER_MAX_SIZE < 2 ^ bits ->
     (r = REnd \/ exists e, r = RErr e) /\
     firstn j (ok_batches rs ess) = durable (len (firstn n file)) rs ess.
 Proof. exact torn_tail. Qed.
+
+(* A consumer that keeps calling next() after it returned an error (LogIterator is public API and
+   is not consumed by the error): on every cut of a written log the loop yields exactly what
+   C12_torn_tail says, and each of the next m calls — any m — returns a clean end; never an entry of
+   the torn batch.  (Before fix 71e5745 the call after the error returned the whole entries of the
+   first fragment of a split batch.) *)
+Theorem C12_nothing_after_error : forall bits crc, HEADER_MAX_SIZE < 2 ^ bits ->
+  forall rollover ess rs file n m,
+  Forall (Forall wf_entry) ess ->
+  write_log bits crc rollover (map ebytes ess) = (rs, file) ->
+  exists r l,
+    read_log_again bits crc (firstn n file) m = (concat (durable (len (firstn n file)) rs ess), r, l) /\
+    (r = REnd \/ exists e, r = RErr e) /\
+    Forall (fun a => a = AEnd) l.
+Proof. intros bits crc HB. exact (read_log_again_prefix bits crc HB). Qed.
 
 (* What one append does to the file: at most HEADER_MAX_SIZE zero bytes up to the block boundary
    (only when the frame does not fit), then either one whole frame that ends at or before the
@@ -122,8 +137,10 @@ Proof. split; reflexivity. Qed.
    other.  No atomicity of the queue is assumed: the queue-level facts (mutual exclusion of
    leaders, index arithmetic, own output) come from Sync42's invariant, proved there for every
    core.  What remains trusted: that ModelWcq.v is the real queue (C18's accepted-trace theorem and
-   runs), the four lines of glue, and the meaning of fdatasync (a successful call makes every byte
-   flushed so far durable). *)
+   runs), the four lines of glue, and the meaning of fdatasync (a successful call before which no
+   call failed makes every byte flushed so far durable; see C12_conc_no_sync_after_failed_sync).
+   ConcurrentLogBuilder::fsync() (do_work(0): returns true without a system call when alone) is not
+   part of the property and not modelled. *)
 Definition batches_ok (progsW : list (list (list entry))) : Prop :=
   forall es, In es (concat progsW) -> es <> [] /\ Forall wf_entry es.
 
@@ -155,6 +172,25 @@ Proof.
   intros bits crc rollover HB progsW Hok nW nF oracle sched k HnW HnF Hrun t thF j Ht Hd.
   destruct (reach_KInv bits crc rollover HB progsW Hok nW nF oracle sched k HnW HnF Hrun) as (pF & HK).
   exact (wl_acked bits crc rollover progsW pF k t thF j HK Ht Hd).
+Qed.
+
+(* Whatever the schedule and whatever the fdatasync calls return: a successful fdatasync is never
+   preceded by a failed one — after a failure the core answers false without calling fdatasync
+   again (fix be5f137), so nothing written before a failed sync is acknowledged by a later sync.
+   Hence the durable mark of the theorem above only ever advances through fdatasync calls before
+   which none had failed: the plain meaning of fdatasync suffices, not the Linux behaviour after
+   an error. *)
+Theorem C12_conc_no_sync_after_failed_sync : forall bits crc rollover, HEADER_MAX_SIZE < 2 ^ bits ->
+  forall progsW, batches_ok progsW ->
+  forall nW nF oracle sched k, (0 < nW)%nat -> (0 < nF)%nat ->
+  crun bits crc rollover (kinit nW nF oracle progsW) sched = Ok k ->
+  (cf_failed (cF k) = false -> Forall (fun e => lf_out e = true) (cf_log (cF k))) /\
+  (forall pre e post, cf_log (cF k) = pre ++ e :: post -> lf_sync e = true ->
+     Forall (fun y => lf_out y = true) pre).
+Proof.
+  intros bits crc rollover HB progsW Hok nW nF oracle sched k HnW HnF Hrun.
+  destruct (reach_KInv bits crc rollover HB progsW Hok nW nF oracle sched k HnW HnF Hrun) as (pF & HK).
+  exact (wl_sync_order bits crc rollover progsW pF k HK).
 Qed.
 
 (* Whatever the schedule: the file is the sequential log (C12_roundtrip applies) of the batches
